@@ -1032,3 +1032,152 @@ def replay_bls_pop(args):
         except Exception as e:
             bad.append((repr(e)[:80], sk))
     return (len(bad) > 0), "bls_pop: %d failures %s" % (len(bad), str(bad[:2])[:300])
+
+
+def _g2_torsion_point():
+    """a point of E'(F_q^2) outside the prime-order subgroup, of order dividing the cofactor (r * random point)."""
+    from py_ecc.optimized_bls12_381 import FQ2, multiply, is_inf, is_on_curve, b2, curve_order
+    q = _Q381
+    xr = 1
+    while True:
+        x = (xr, 3)
+        x3 = _fq2_mul(_fq2_mul(x, x, q), x, q)
+        y = _fq2_sqrt(((x3[0] + 4) % q, (x3[1] + 4) % q), q)
+        xr += 1
+        if y is None:
+            continue
+        P = (FQ2(list(x)), FQ2(list(y)), FQ2([1, 0]))
+        T = multiply(P, curve_order)
+        if not is_inf(T) and is_on_curve(T, b2):
+            return T
+
+
+def _g1_torsion_point():
+    from py_ecc.optimized_bls12_381 import FQ
+    return (FQ(0), FQ(2), FQ(1))      # order 3
+
+
+def _related_battery(sk=None, msg=None):
+    """(name, verifier thunk, expected) for the candidates of C02, all run on the real code."""
+    from py_ecc.bls import G2Basic as Basic, G2MessageAugmentation as Aug, G2ProofOfPossession as Pop
+    from py_ecc.bls.g2_primitives import signature_to_G2, G2_to_signature
+    from py_ecc.optimized_bls12_381 import add, neg, multiply, Z2
+    sk = sk or 0x1234567
+    sk2 = sk + 1 if sk + 1 < _R else sk - 1
+    m = msg if msg is not None else b"msg"
+    m2 = m + b"\x00"
+    out = []
+    for S in (Basic, Aug, Pop):
+        pk = S.SkToPk(sk)
+        sig = S.Sign(sk, m)
+        out.append(("%s canonical" % S.__name__, lambda S=S, pk=pk, sig=sig: S.Verify(pk, m, sig), True))
+    pk = Basic.SkToPk(sk)
+    sig = Basic.Sign(sk, m)
+    Spt = signature_to_G2(sig)
+    T = _g2_torsion_point()
+    cands = [("other key", Basic.Sign(sk2, m)), ("other message", Basic.Sign(sk, m2)), ("other suite POP", Pop.Sign(sk, m)),
+             ("other suite AUG", Aug.Sign(sk, m)), ("-S", G2_to_signature(neg(Spt))), ("2S", G2_to_signature(add(Spt, Spt))),
+             ("S+T torsion", G2_to_signature(add(Spt, T))), ("identity", G2_to_signature(Z2)),
+             ("sk+-1 * H", G2_to_signature(multiply(signature_to_G2(Basic.Sign(1, m)), sk2)))]
+    for i in (0, 1, 47, 48, 95):
+        b = bytearray(sig)
+        b[i] ^= 0x01
+        cands.append(("bit flip byte %d" % i, bytes(b)))
+    for bit in (0x80, 0x40, 0x20):
+        b = bytearray(sig)
+        b[0] ^= bit
+        cands.append(("flag flip %02x" % bit, bytes(b)))
+    for name, c in cands:
+        out.append((name, lambda c=c: Basic.Verify(pk, m, c), False))
+    ppk = Pop.SkToPk(sk)
+    out.append(("pop as sig", lambda: Pop.Verify(ppk, ppk, Pop.PopProve(sk)), False))
+    out.append(("sig as pop", lambda: Pop.PopVerify(ppk, Pop.Sign(sk, ppk)), False))
+    out.append(("pop canonical", lambda: Pop.PopVerify(ppk, Pop.PopProve(sk)), True))
+    apk = Aug.SkToPk(sk)
+    out.append(("aug without prefix", lambda: Aug.Verify(apk, m, Aug._CoreSign(sk, m, Aug.DST)), False))
+    return out
+
+
+def replay_bls_related(args):
+    bad = []
+    for name, thunk, exp in _related_battery():
+        try:
+            got = thunk()
+        except Exception as e:
+            got = repr(e)[:80]
+        if got is not exp:
+            bad.append((name, got, exp))
+    return (len(bad) > 0), "bls_related: %d mismatches %s" % (len(bad), str(bad[:3])[:300])
+
+
+replay_bls_unique = replay_bls_related
+
+
+def replay_bls_aggregate(args):
+    from py_ecc.bls import G2Basic as S
+    from py_ecc.bls.g2_primitives import signature_to_G2, G2_to_signature
+    from py_ecc.optimized_bls12_381 import add, Z2, normalize
+    from eth_utils import ValidationError
+    bad = []
+    sigs = [S.Sign(k, b"m%d" % k) for k in (3, 5, 7, 11)]
+    for n in (1, 2, 3, 4):
+        pts = [signature_to_G2(s) for s in sigs[:n]]
+        acc = Z2
+        for p_ in pts:
+            acc = add(acc, p_)
+        exp = G2_to_signature(acc)
+        import itertools
+        for perm in list(itertools.permutations(sigs[:n]))[:6]:
+            if S.Aggregate(list(perm)) != exp:
+                bad.append(("order/sum", n))
+    for badlist in ([], [sigs[0][:95]], [sigs[0], sigs[1] + b"\x00"]):
+        try:
+            S.Aggregate(badlist)
+            bad.append(("accepted", [len(x) for x in badlist]))
+        except ValidationError:
+            pass
+        except Exception as e:
+            bad.append((repr(e)[:60],))
+    return (len(bad) > 0), "bls_aggregate: %d mismatches %s" % (len(bad), str(bad[:3])[:200])
+
+
+def replay_bls_aggverify(args):
+    """real AggregateVerify / FastAggregateVerify on honest aggregates and single-element perturbations."""
+    from py_ecc import bls
+    bad = []
+    suites = [args["suite"]] if args.get("suite") in ("G2Basic", "G2MessageAugmentation", "G2ProofOfPossession") else ["G2Basic", "G2MessageAugmentation", "G2ProofOfPossession"]
+    for sname in suites:
+        S = getattr(bls, sname)
+        sks = [5, 9, 9 + 4]
+        msgs = [b"a", b"b", b"c"]
+        pks = [S.SkToPk(k) for k in sks]
+        for n in (1, 2, 3):
+            sigs = [S.Sign(sks[i], msgs[i]) for i in range(n)]
+            agg = S.Aggregate(sigs)
+            tests = [("honest", pks[:n], msgs[:n], agg, True), ("empty", [], [], agg, False), ("mismatch", pks[:n], msgs[:n] + [b"x"], agg, False),
+                     ("altered msg", pks[:n], [b"zz"] + msgs[1:n], agg, False), ("altered agg", pks[:n], msgs[:n], S.Aggregate(sigs + [sigs[0]]), False)]
+            if n > 1:
+                tests.append(("dropped signer", pks[:n - 1], msgs[:n - 1], agg, False))
+                tests.append(("swapped keys", [pks[1], pks[0]] + pks[2:n], msgs[:n], agg, False))
+            if sname == "G2Basic" and n > 1:
+                same = [S.Sign(sks[i], b"same") for i in range(n)]
+                tests.append(("repeated message (basic)", pks[:n], [b"same"] * n, S.Aggregate(same), False))
+            for name, P, M, sg, exp in tests:
+                try:
+                    got = S.AggregateVerify(P, M, sg)
+                except Exception as e:
+                    got = repr(e)[:60]
+                if got is not exp:
+                    bad.append((sname, n, name, got))
+            if sname == "G2ProofOfPossession":
+                same = [S.Sign(sks[i], b"same") for i in range(n)]
+                ag = S.Aggregate(same)
+                for name, P, m, sg, exp in (("fast honest", pks[:n], b"same", ag, True), ("fast other msg", pks[:n], b"other", ag, False),
+                                            ("fast empty", [], b"same", ag, False), ("fast extra key", pks[:n] + [pks[0]], b"same", ag, False)):
+                    try:
+                        got = S.FastAggregateVerify(P, m, sg)
+                    except Exception as e:
+                        got = repr(e)[:60]
+                    if got is not exp:
+                        bad.append((sname, n, name, got))
+    return (len(bad) > 0), "bls_aggverify: %d mismatches %s" % (len(bad), str(bad[:3])[:300])
